@@ -265,6 +265,9 @@ def take_params(tok, a):
 def take_plan(tok, a):
     """(offsets of the chunk handed to the caller, in order; how far the chunk iterator has advanced afterwards) for a
     consumption token; `<k>+nth:<j>`: `k` calls of `next()`, then one `nth(j)`"""
+    if tok.endswith("+forget"):
+        kk = min(int(tok[:-7]), a)
+        return list(range(kk)), kk
     if tok.endswith("+last"):
         kk = min(int(tok[:-5]), a)
         return list(range(kk)) + ([a - 1] if kk < a else []), a
